@@ -1309,6 +1309,7 @@ instance {α} [ToJ α] : ToJ (Except Err α) :=
   ⟨fun r => match r with | .ok v => Json.mkObj [("ok", toJ v)] | .error e => Json.mkObj [("err", Json.str e.toString)]⟩
 
 def argAt (args : List Json) (i : Nat) : Json := args.getD i Json.null
+@@HEAP@@
 
 def handle (j : Json) : Json :=
   let args := getArr j "args"
@@ -1342,4 +1343,50 @@ def driver_source(specs, status, src_root):
         call = f"Tr.{spec['lean']}" + (" (α := Int)" if generic else "")
         imports.append(f"import FinamModel.Translated.{spec['lean']}")
         cases.append(f'  | "{spec["lean"]}" => toJ ({call} {args})')
-    return (DRIVER_PRELUDE.replace("@@IMPORTS@@", "\n".join(imports)).replace("@@CASES@@", "\n".join(cases)))
+    heap_block = ""
+    need = ["find_dependencies", "update_recursive", "DelayFixed_with_delay", "DelayToPull_with_delay", "DelayToPush_with_delay"]
+    if all(status.get(n, {}).get("translated") for n in need):
+        for n in need:
+            imp = f"import FinamModel.Translated.{n}"
+            if imp not in imports:
+                imports.append(imp)
+        heap_block = HEAP_BLOCK
+        cases.append('  | "find_dependencies" => toJ (Tr.find_dependencies (heapOfJson (argAt args 0)) (fromJ (argAt args 1)) (fromJ (argAt args 2)))')
+        cases.append('  | "update_recursive" => toJ (Tr.update_recursive (heapOfJson (argAt args 0)) (fromJ (argAt args 1)) (fromJ (argAt args 2)) [] none)')
+        for n in ("check_input_connected", "check_dead_links", "check_branching"):
+            if status.get(n, {}).get("translated"):
+                imports.append(f"import FinamModel.Translated.{n}")
+                cases.append(f'  | "{n}" => toJ (Tr.{n} (heapOfJson (argAt args 0)) (fromJ (argAt args 1)))')
+    return (DRIVER_PRELUDE.replace("@@IMPORTS@@", "\n".join(imports)).replace("@@HEAP@@", heap_block)
+            .replace("@@CASES@@", "\n".join(cases)))
+
+
+HEAP_BLOCK = """
+/-- attribute tables extracted from live Python objects (harness/trvalidate.py) as a `Py.Heap`; `with_delay` of the
+    delay adapters is evaluated with the *translated* `with_delay` functions -/
+def tbl {α} [FromJ α] (j : Json) (k : String) (dflt : α) : Nat → α :=
+  let l : List α := (getArr j k).map fromJ
+  fun i => l.getD i dflt
+
+def delayOf (j : Json) : Nat → Int → Int :=
+  let l := getArr j "delay"
+  fun i t =>
+    match arr (l.getD i Json.null) with
+    | [k, a, b] =>
+      if asStr k == "dfix" then (Tr.DelayFixed_with_delay (asInt a) (asInt b) t).toOption.getD t
+      else if asStr k == "dpush" then (Tr.DelayToPush_with_delay (fromJ a) (asInt b) t).toOption.getD t
+      else t
+    | [k, p, a, b] =>
+      if asStr k == "dpull" then ((Tr.DelayToPull_with_delay (fromJ p) (asInt b) (asInt a) t).toOption.map (·.1)).getD t
+      else t
+    | _ => t
+
+def heapOfJson (j : Json) : Py.Heap :=
+  { isInput := tbl j "isInput" false, isOutput := tbl j "isOutput" false, isAdapter := tbl j "isAdapter" false,
+    isNoDep := tbl j "isNoDep" false, isDelay := tbl j "isDelay" false, isNoBranch := tbl j "isNoBranch" false,
+    isTimeComp := tbl j "isTimeComp" false, needsPush := tbl j "needsPush" false, needsPull := tbl j "needsPull" false,
+    isStatic := tbl j "isStatic" false, finished := tbl j "finished" false, hasSource := tbl j "hasSource" false,
+    source := tbl j "source" 0, time := tbl j "time" 0, nextTime := tbl j "nextTime" 0, withDelay := delayOf j,
+    owner := tbl j "owner" 0, inputs := tbl j "inputs" [], outputs := tbl j "outputs" [], targets := tbl j "targets" [],
+    size := getNat j "size" }
+"""
